@@ -31,8 +31,8 @@ CHECKS = {
         require={'V:non-contiguous': 0.03, 'mixed-contiguity': 0.02, '__nontrivial__': 0.2},
         pkg="c02", level="exploration",
         rule="rapid-generated views (classes forced: whole, leading rows, row-gapped, column, stepped, single element, extent-1 dims, slice chains to depth 3, reshaped) of all 8 element types and both back-ends; for each view: Unroll, Contiguous, Maximum/Minimum, "
-             "ReshapeFast, Reshape/MustReshape to right and wrong sizes, aliasing of reshape/unroll results, and one binary operation (CopyFrom, ApplySlice, Scale, AddTo, ApplyFunc1) against a second view of either contiguity, all compared with the row-major element-wise definition on the extensional model; "
-             "plus the integer helpers (Offsets, IDivMod, Increment, Product, Multiply, Argmax, Maximum) on random vectors. Non-trivial = the view is non-contiguous, stepped or reshaped, or the binary operation has mixed contiguity, or a helper case of rank >= 2; distinct = distinct case",
+             "ReshapeFast, Reshape/MustReshape to right and wrong sizes, aliasing of reshape/unroll results, and one binary operation (CopyFrom, ApplySlice, Scale, AddTo, ApplyFunc1) against a second view of either contiguity (Scale / AddTo / ApplyFunc1 in one case of five with the destination itself as the source), all compared with the row-major element-wise definition on the extensional model; "
+             "plus the integer helpers (Offsets, IDivMod, Increment, Product, Multiply, Argmax, Maximum) on random vectors. Non-trivial = the view is non-contiguous, stepped or reshaped, or the binary operation has mixed contiguity or works in place, or a helper case of rank >= 2; distinct = distinct case",
         assumptions=[],
         quick=dict(stages=[st(6000, timeout=600)]),
         thorough=dict(stages=[st(0, fuzz="FuzzIndexHelpers", fuzztime="60s", timeout=600), st(0, fuzz="FuzzViewOperations", fuzztime="60s", timeout=600), st(200000, shards=16, timeout=3000)]),
